@@ -21,6 +21,7 @@ mod probe;
 mod c19;
 mod rng;
 mod sched;
+mod stall;
 mod store;
 mod util;
 
@@ -109,6 +110,8 @@ fn main() {
         ("c19", "gen") => c19::gen(&args),
         ("c19", "exec") => c19::exec(&args),
         ("c19", "child") => c19::child(&args),
+        ("stall", "gen") => stall::gen(&args),
+        ("stall", "exec") => stall::exec(&args),
         ("c12", "gen") => c12::gen(&args),
         ("c12", "exec") => c12::exec(&args),
         _ => {
